@@ -69,6 +69,9 @@ def run(ctx):
         _pair(ctx, cfg, prog, mod)
         _gate(ctx, cfg, prog, mod)
         _mono(ctx, cfg, prog, mod)
+    if ctx.tier == 'thorough':
+        import c05
+        c05._witness(ctx)
     return ctx.finish(EXPLANATION)
 
 
